@@ -15,7 +15,7 @@
     lookups_subset_extract_partial choose_identity msg_lookup_extracted identity_transparent_msg
     choose_lookup_extracted choose_outer_text_not_looked_up msg_lookup_extracted_elem
     code_calls_extracted identity_transparent_msg_sub choose_extract_succeeds
-    sub_attrs_not_extracted wide_of_plain
+    sub_attrs_not_extracted wide_of_plain identity_transparent_msg_reorder
 -/
 import Genshi.Lemmas.I18nTree
 import Genshi.Lemmas.I18nStarts
@@ -27,6 +27,7 @@ import Genshi.Lemmas.I18nLookups3
 import Genshi.Lemmas.I18nChooseLookup
 import Genshi.Lemmas.I18nCode
 import Genshi.Lemmas.I18nPassEq
+import Genshi.Lemmas.I18nPassReorder
 import Genshi.Model.I18nExtract
 namespace Genshi.Props.C19
 open Genshi Genshi.I18n
@@ -661,6 +662,44 @@ example :
       (flattenM [.text [' ','H','i',',',' '], .elem (some [.other ['i','f']]) ⟨[], ['b']⟩ [] [.expr ['n'] 0 []], .text ['!',' ']] ++
         [.end_ ⟨[], ['p']⟩])) = true := by
   refine ⟨by decide +kernel, by decide +kernel⟩
+
+/-- **identity_transparent, pass and directive together, `i18n:domain` / `i18n:ctxt` on
+    directive-carrying elements.**  As `identity_transparent_msg_sub` without the restriction
+    on the directives: an element inside the message may carry `i18n:domain`, `i18n:ctxt` next to
+    its other directives.  The pass moves those to the front of the directive list of the SUB
+    event (`reordM` applies `reorder` to every list — a permutation: `reorder_is_permutation`)
+    and changes nothing else; every hypothesis of `msg_identity_attr` is blind to that order, so
+    the directive returns the content with the re-ordered lists, unchanged up to the white space
+    at the edges of the message and the chunking of text.  Stated for messages without excluded
+    elements (`noExclList`: inside `ignore_tags` / literal `xml:lang` elements the pass does not
+    re-order; that case without domain / context is `identity_transparent_msg_sub`). -/
+theorem identity_transparent_msg_reorder (cfg : Cfg) (ctx : Ctx) (ta : Bool) (t : QName) (a : TAttrs) (F : List MNode)
+    (extra : List Str) (hc : cleanM F = true) (hna : deepNoAdjM F = true) (hnd : (namesM F).Nodup)
+    (hso : subsOKM false F = true)
+    (hx : noExclList cfg (.start t a :: (flattenM F ++ [.end_ t])) = true)
+    (hattr : cleanList cfg (.start t a :: (flattenM F ++ [.end_ t])) = true) :
+    msgGenerate (namesM F ++ extra) (fun s => s)
+        (trList cfg Catalog.id ctx false ta 0 (.start t a :: (flattenM F ++ [.end_ t]))) =
+      .ok (.start t a :: (coalesce (flattenM (trimF (reordM F))) ++ [.end_ t])) :=
+  pass_then_msg_identity_reord cfg ctx ta t a F extra hc hna hnd hso hx hattr
+
+/-- `<p i18n:msg="n"> Hi, <b py:if="c" i18n:ctxt="m" i18n:domain="d">${n}</b>! </p>`: the
+    hypotheses hold; the pass puts domain and context first, the directive keeps the element -/
+example :
+    cleanM [.text [' ','H','i',',',' '], .elem (some [.other ['i','f'], .ctxt ['m'], .domain ['d']]) ⟨[], ['b']⟩ [] [.expr ['n'] 0 []], .text ['!',' ']] = true ∧
+    subsOKM false [.text [' ','H','i',',',' '], .elem (some [.other ['i','f'], .ctxt ['m'], .domain ['d']]) ⟨[], ['b']⟩ [] [.expr ['n'] 0 []], .text ['!',' ']] = true ∧
+    noExclList Cfg.default (.start ⟨[], ['p']⟩ [] ::
+      (flattenM [.text [' ','H','i',',',' '], .elem (some [.other ['i','f'], .ctxt ['m'], .domain ['d']]) ⟨[], ['b']⟩ [] [.expr ['n'] 0 []], .text ['!',' ']] ++
+        [.end_ ⟨[], ['p']⟩])) = true ∧
+    cleanList Cfg.default (.start ⟨[], ['p']⟩ [] ::
+      (flattenM [.text [' ','H','i',',',' '], .elem (some [.other ['i','f'], .ctxt ['m'], .domain ['d']]) ⟨[], ['b']⟩ [] [.expr ['n'] 0 []], .text ['!',' ']] ++
+        [.end_ ⟨[], ['p']⟩])) = true ∧
+    coalesce (flattenM (trimF (reordM
+      [.text [' ','H','i',',',' '], .elem (some [.other ['i','f'], .ctxt ['m'], .domain ['d']]) ⟨[], ['b']⟩ [] [.expr ['n'] 0 []], .text ['!',' ']]))) =
+      [.text ['H','i',',',' '],
+       .sub [.domain ['d'], .ctxt ['m'], .other ['i','f']] [.start ⟨[], ['b']⟩ [], .expr 0 [], .end_ ⟨[], ['b']⟩],
+       .text ['!']] := by
+  refine ⟨by decide +kernel, by decide +kernel, by decide +kernel, by decide +kernel, by decide +kernel⟩
 
 /-- **identity_transparent, plural choice** (`ChooseDirective.__call__` with
     `ChooseBranchDirective.__call__`).  For `pre <ts i18n:singular>Fs</ts> mid
